@@ -95,6 +95,53 @@ class HarnessError(Exception):
     pass
 
 
+# ---- SQL statement boundaries as scheduling points (state database) --------------------------
+
+_SQL = {"installed": False, "on": False}
+
+
+def install_sql_seam():
+    """Every SQL statement that diskcache issues outside a transaction becomes a scheduling point.
+
+    A writer is never parked while it holds the database write lock: statements inside a
+    transaction (after BEGIN) are not points.
+    """
+    if _SQL["installed"]:
+        return
+    import sqlite3 as real
+
+    import diskcache.core as core
+
+    class Proxy:
+        def __getattr__(self, name):
+            return getattr(real, name)
+
+        @staticmethod
+        def connect(path, *a, **kw):
+            con = real.connect(path, *a, **kw)
+
+            def trace(stmt, _con=con, _path=path):
+                if not _SQL["on"]:
+                    return
+                try:
+                    if _con.in_transaction:
+                        return
+                except Exception:  # noqa: BLE001
+                    return
+                words = stmt.split()
+                if not words or words[0].upper() not in ("SELECT", "INSERT", "UPDATE", "DELETE", "BEGIN", "REPLACE"):
+                    return
+                if "Settings" in stmt or "sqlite_master" in stmt:
+                    return
+                read_point(os.path.dirname(_path) + "/sql:" + " ".join(words[:3])[:40])
+
+            con.set_trace_callback(trace)
+            return con
+
+    core.sqlite3 = Proxy()
+    _SQL["installed"] = True
+
+
 class ThreadSched:
     def __init__(self, fns, choices, shared, timeout=30.0, fine=()):
         self.fns = fns
